@@ -227,6 +227,9 @@ func (t Typed) Compile(i FeatureIndex, w World) search.Iterator {
 		begin, end = FeatureIDAreaBegin, FeatureIDAreaEnd
 	case FeatureTypeRelation:
 		begin, end = FeatureIDRelationBegin, FeatureIDRelationEnd
+	case FeatureTypeCollection:
+		begin = FeatureID{Type: FeatureTypeCollection, Namespace: NamespaceInvalid, Value: 0}
+		end = FeatureID{Type: FeatureTypeCollection + 1, Namespace: NamespaceInvalid, Value: 0}
 	default:
 		panic("Bad FeatureType")
 	}
